@@ -567,6 +567,11 @@ impl<'a> Gen<'a> {
             _ => {}
         }
         let mut fields = Vec::new();
+        // one command level in twenty breaks the rule that positional items come last; whether
+        // such a definition is in the corpus is for `check_invariants` to say
+        if depth > 0 && self.sw.positionals && self.r.chance(1, 20) {
+            fields.push(self.pos_leaf(false));
+        }
         let n_named = self.r.range(0, 4);
         for _ in 0..n_named {
             fields.push(self.named_field(depth));
@@ -637,7 +642,8 @@ impl<'a> Gen<'a> {
             } else {
                 Shape::Alt(cmds)
             };
-            let c = match self.r.below(6) {
+            let c = match self.r.below(7) {
+                6 => Shape::Wrap(W::Hide, Box::new(c)),
                 0 => Shape::Wrap(W::Optional { catch: false }, Box::new(c)),
                 1 => Shape::Wrap(W::Many { catch: false }, Box::new(c)),
                 2 => Shape::Wrap(
